@@ -7,7 +7,8 @@ hook_commits = [l.split()[0] for l in subprocess.run(['git', '-C', '/repo', 'log
 TRUST = ("Trusted: go/packages+go/types+go/ssa (x/tools v0.29.0), govc's VC generator, z3 5.1.0 / z3 4.8.12 / cvc5 1.0.3; "
          "extern contracts of the standard library (encoding/binary, bytes, fmt, sync/atomic; listed per run in evidence.trusted_base); "
          "slices satisfy off+cap <= 2^56; sizes bounded as stated in the contracts' requires clauses; "
-         "separation preconditions (destination buffer disjoint from the message's own buffers) are obligations of callers.")
+         "separation preconditions (destination buffer disjoint from the message's own buffers) are obligations of static callers; at dynamic calls through the message.Message interface the implementation's preconditions are assumed (the interface postconditions and frame are proved per implementation by refinement wrappers; Len() <= 268435460 is an explicit assumption); "
+         "the topics.Provider / sessions.Provider / sync.Locker / io / net interface contracts are trusted.")
 
 claimed = {
  'C03': dict(level='proof',
@@ -37,7 +38,7 @@ claimed = {
  'C17': dict(level='proof',
    text=("Contract-based proof for writeMessage (core of the property): all ring operations of a packet write happen while the connection's write mutex is held, and the mutex is held continuously from before the reservation to the commit (ghost clock: no re-acquisition in between); "
          "what is committed is exactly what the message's Encode produced, at exactly the reserved region (in-place path) or exactly the scratch bytes (wrap path), so the ring receives whole encoded packets; on an error before the commit nothing is committed. "
-         "That Encode produces a complete well-formed packet of Len() bytes is C03 per type (assumed at the Message interface). Not covered: per-publisher ordering across goroutines (a schedule property)."),
+         "That Encode produces a complete well-formed packet of Len() bytes is C03 per type; the interface-level contract writeMessage relies on (0 <= n <= len(dst), frame) is proved for all 14 packet types by refinement wrappers that are part of this check. service.processor has a thin ordering contract (callee preconditions assumed): the bytes of a received packet stay uncommitted in the incoming ring while the packet is processed - what is forwarded from it points into them - and exactly the peeked size is committed afterwards, once per packet. Not covered: per-publisher ordering across goroutines (a schedule property)."),
    design='DESIGN.md §4 C17', technique='contracts with call-site obligations (atcall) and ghost ordering, VCs over go/ssa, z3/cvc5 (govc)'),
  'C02': dict(level='proof',
    text=("Contract-based deductive proof of the per-packet mechanism the property rests on (core; the composition over whole histories is argued in DESIGN.md, not machine-checked). Against a ghost log of the packets a connection sends "
@@ -58,7 +59,7 @@ claimed = {
  'C19': dict(level='proof',
    text=("Contract-based deductive proof of the two mechanisms the property rests on (core; real time and the behaviour of net.Conn deadlines are outside any contract): the receiver goroutine reads the socket only through a timeoutReader whose "
          "deadline is exactly keep-alive + keep-alive/5 seconds (K <= d <= 1.5 K) and timeoutReader.Read re-arms the read deadline before every single socket read (ghost 'armed' flag consumed by the read), so a client silent for d fails the read; "
-         "processIncoming answers every PINGREQ with exactly one PINGRESP (or a write failed) and sends PINGRESP for nothing else. Not covered: where the keep-alive value comes from (handleConnection) and that the failed read leads to the will being published (teardown, see C09)."),
+         "processIncoming answers every PINGREQ with exactly one PINGRESP (or a write failed) and sends PINGRESP for nothing else. Every function of the repository that arms the socket read deadline must be under contract (a new caller of SetReadDeadline is a binding failure), and handleConnection replaces the CONNECT keep-alive only when it is 0, by the default. Not covered: that the failed read leads to the will being published (teardown, see C09)."),
    design='DESIGN.md §4 C19', technique='ghost-state contracts and call-site obligations; VCs over go/ssa discharged by z3/cvc5 (govc)'),
  'C09': dict(level='proof',
    text=("Contract-based deductive proof of the three mechanisms the property rests on (core; which goroutine reaches teardown and when is a schedule question outside any contract). (1) Session.Init and Session.Update establish the will invariant: whenever the stored CONNECT "
@@ -90,17 +91,17 @@ claimed = {
          "that a subscription is in the store from SUBACK to UNSUBACK is C07's ordering obligation for UNSUBSCRIBE, and unverified for SUBSCRIBE. Topic and payload are untouched by construction (only the flag byte and header fields are in the frame of onPublish and of the callbacks)."),
    design='DESIGN.md §4 C01', technique='ghost counters, loop invariant and call-site obligations over go/ssa, z3/cvc5 (govc)'),
  'C07': dict(level='proof',
-   text=("Contract-based deductive proof for UNSUBSCRIBE and for the codec and helper functions of SUBSCRIBE; the SUBSCRIBE handler itself is NOT verified. processUnsubscribe hands every filter of the request to the topic store, in request order (ghost log of the store calls), before the UNSUBACK is written, "
-         "and writes exactly one UNSUBACK with the request's packet identifier unless the write fails. SubackMessage.AddReturnCodes appends exactly the given codes in order and fails only for a code outside {0,1,2,0x80}; the filter lists of SUBSCRIBE/UNSUBSCRIBE decode to exactly the filters on the wire, in order (C03/C04 contracts, part of this check); "
-         "the store wrapper returns min(requested, MaxQosAllowed) or 0x80 with an error. processSubscribe is under a TRUSTED contract pinned to its current body (three nested loops whose freshly allocated byte arrays the generator's loop havoc cannot frame; DESIGN.md §10) and is covered instead by a BOUNDED stand-in, labelled bounded and not counted as proved: the real function is run against a scripted topic store for every request of 1..4 filters over 4 filter names (one rejected), QoS 0..2 each and store maximum 0..2 (67860 cases), checking one SUBACK, same id, one code per filter in request order (0x80 / min(requested, max)) and one store call per filter in order; "
-         "a partial check of it found that a rejected filter made the request vanish without SUBACK - fixed - but 'one SUBACK, codes in request order, subscription effective before the SUBACK' is not machine-checked."),
-   design='DESIGN.md §4 C07', technique='ghost-log contracts and call-site obligations over go/ssa, z3/cvc5 (govc); SUBSCRIBE handler trusted'),
+   text=("Contract-based deductive proof of both handlers (core; 'effective for every message accepted after the ack' across connections is argued). processSubscribe (verified since the third session: 884 obligations, three loops one of them nested) hands every filter of the request to the topic store in request order, with the requested QoS and this connection's own callback (ghost log of the store calls), before the SUBACK is written; "
+         "writes exactly one SUBACK unless the write fails, with the request's packet identifier and one return code per filter in request order, each being the store's answer for that filter (min(requested, MaxQosAllowed) or 0x80: the store wrapper's contract, also in this check); a rejected filter never produces an error return without SUBACK (a defect found here earlier - fixed). "
+         "processUnsubscribe hands every filter to the store, in order, before exactly one UNSUBACK with the request's identifier. SubackMessage.AddReturnCodes appends exactly the given codes in order; the filter lists of SUBSCRIBE/UNSUBSCRIBE decode to exactly the filters on the wire, in order (C03/C04 contracts, part of this check). "
+         "A BOUNDED stand-in (labelled bounded, not counted as proved) additionally runs processSubscribe against a scripted store for every request of 1..4 filters over 4 names, QoS 0..2, store maximum 0..2 (67860 cases). Assumed in processSubscribe (listed in evidence): what the store's Retained hands out is clean and separate from this connection's buffers."),
+   design='DESIGN.md §4 C07, §13', technique='ghost-log contracts, loop invariants and call-site obligations over go/ssa, z3/cvc5 (govc)'),
  'C11': dict(level='proof',
    text=("Contract-based deductive proof of handleConnection against ghost logs of the CONNACKs written to the connection, of authenticator calls, of started services, of Close calls and of the session store (core; what the accepted connection's goroutines do afterwards is the other properties). "
          "For every first packet: a CONNECT refused while decoding with a CONNACK code gets exactly one CONNACK with exactly that code and SessionPresent=0, any other unreadable first packet gets none; rejected credentials get exactly one CONNACK with code 4; an accepted CONNECT gets exactly one CONNACK with code 0 after the session was obtained and before the service is started; "
          "on every refusal no service is created or started and the session store is untouched (the authenticator is consulted before any session access); every error return closes the connection (deferred function, verified). "
          "ConnectMessage.Decode maps an unsupported protocol level to code 1 and an unacceptable client identifier to code 2 and produces no other code (C03/C04 contracts, part of this check). "
-         "Assumed: reading the CONNECT from the socket (getConnectMessage), writing the CONNACK bytes (writeMessage), the identifier syntax check (a regular expression) and service.start are trusted contracts pinned to their current bodies; start is assumed not to fail."),
+         "auth.Manager.Authenticate asks the configured provider exactly once, with these credentials, and returns its answer (verified; package auth under contract). Assumed: writing the CONNACK bytes (the package-level writeMessage) and the identifier syntax check (a regular expression) are trusted contracts pinned to their current bodies; service.start is verified but assumed not to fail here."),
    design='DESIGN.md §4 C11', technique='ghost-log contracts over go/ssa incl. the deferred closure, z3/cvc5 (govc)'),
  'C05': dict(level='proof',
    text=("Contract-based deductive proof of the per-connection input paths (core; that a teardown of one connection does not disturb others is a whole-system statement not covered). For arbitrary bytes from the peer: getMessageBuffer (the unauthenticated read of the first packet) and getConnectMessage, "
@@ -116,7 +117,7 @@ claimed = {
          "(4) PublishMessage.Clone (the QoS-downgraded copy sent to a new subscription) is a fresh object over a fresh buffer with identical flags, topic and payload, and leaves the stored message untouched. "
          "(5) The broker-side subscriber callback (onpub closure) forwards with the retain flag cleared and restores the flag of the shared message afterwards. "
          "NOT machine-checked: the lookup side of the retained trie (rmatch, allRetained iterate over Go maps) and that unrelated trie nodes are untouched by a recursive insert - covered by the BOUNDED stand-in shared with C06 (labelled bounded, never counted as proved: retained insert/replace/clear for every pair of topics against every filter of 1..3 levels); "
-         "the SUBSCRIBE handler that sends the retained messages is under a trusted contract pinned to its body (see C07)."),
+         "(6) processSubscribe (verified, see C07): a retained message whose QoS exceeds the granted QoS is replaced by a fresh clone with the granted QoS - SetQoS is only ever applied to a fresh object, never to the stored one - and all collected messages are sent after the SUBACK."),
    design='DESIGN.md §4 C08', technique='contracts (one-step contracts on the recursive trie functions, map type invariant, ghost log, frame checking) with VCs over go/ssa discharged by z3/cvc5 (govc); bounded exhaustive stand-in for the trie lookups'),
  'C20': dict(level='proof',
    text=("Contract-based deductive proof of the client-side mechanisms (core; the composition over subscribe / unsubscribe / PUBLISH histories is argued, not machine-checked). Client.Connect and ConnectTLS, against ghost logs of dials, of CONNACK packets read and decoded, of started services and of Close calls: they return nil exactly when a CONNACK with return code 0 was read and then start the connection's goroutines exactly once; "
